@@ -275,7 +275,7 @@ impl Dev {
     }
 }
 
-pub const GARBAGE: [&str; 7] = ["foo", "~1.y", "1.2.3.4", "1.2beta4", "x|y", "|", ">="];
+pub const GARBAGE: [&str; 8] = ["foo", "~1.y", "1.2.3.4", "1.2beta4", "x|y", "|", "-", ">="];
 
 fn render_partial(p: &Partial, alt: usize, simple: usize, side: usize, devs: &[Dev]) -> String {
     let mut s = String::new();
@@ -460,6 +460,10 @@ pub fn sites(prog: &Prog) -> Vec<Dev> {
                     for tok in GARBAGE {
                         // a dangling operator before a comparator would be read as "blank after operator"
                         if tok == ">=" && pos < simples.len() {
+                            continue;
+                        }
+                        // a stray `-` between two comparators would spell a hyphen range
+                        if tok == "-" && pos > 0 && pos < simples.len() {
                             continue;
                         }
                         out.push(Dev::Garbage { alt: ai, pos, tok });
